@@ -239,4 +239,16 @@ AnsCase(i, plain, j) == [fam |-> "stale-ans", id |-> "stale-ans/" \o ToString(i)
                                       P(AnsKinds[j][1], 1), P("\nzfa()", 1) >>,
                          sess |-> "prelude", exact |-> "na", n |-> 2, val |-> "", lit |-> "na", rep |-> 1]
 AnsCases == { AnsCase(i, pl, j) : i \in 1..Len(AnsKinds), pl \in BOOLEAN, j \in 1..Len(AnsKinds) }
+
+\* ------------------------------------------------- 8 the message of a failed assertion
+\* assert_eq(a, b, eps) that fails prints a, b and their difference with as many decimal digits as eps has.  Classes:
+\* comparand magnitude relative to that precision (at, just below and far below one unit of the last printed digit; signs)
+\* x number of decimal digits of eps (0 .. 4, and a negative eps).  The assertion may hold or fail; the failure must be
+\* REPORTED, i.e. its message must be rendered.
+MsgVals == <<"1", "0.94", "0.5", "0.0094", "0.005", "0.00051", "0.000049", "-0.0094", "-0.6", "123456.789">>
+MsgEps == <<"0", "1", "0.1", "0.01", "0.001", "0.0001", "0.25 - 5">>
+MsgCase(i, j, k) == [fam |-> "assert-message", id |-> "assert-message/" \o MsgVals[i] \o "/" \o MsgVals[j] \o "/" \o MsgEps[k],
+                     parts |-> << P("assert_eq(", 1), P(MsgVals[i], 1), P(", ", 1), P(MsgVals[j], 1), P(", ", 1), P(MsgEps[k], 1), P(")", 1) >>,
+                     sess |-> "prelude", exact |-> "na", n |-> 3, val |-> "", lit |-> "na", rep |-> 1]
+MsgCases == { MsgCase(i, j, k) : i \in 1..Len(MsgVals), j \in 1..Len(MsgVals), k \in 1..Len(MsgEps) }
 =============================================================================
